@@ -306,6 +306,22 @@ def run(prog: Program, ctx: Ctx) -> None:  # noqa: PLR0912,PLR0915
                        f"`{unparse(par if isinstance(par, ast.Attribute) else n)}` is only protected against {sorted(got)}: {sorted(missing)} "
                        "(an empty member name, a member that is an unresolvable import) escape the docstring parser", where(f, n))
     ctx.expect_min("R2", n_lk, 3)
+    # `docstring.parent.parameters`: for a class this goes through its `__init__` member, which can be a name imported in the class body
+    cparams = prog.lookup_method(prog.cls("_griffe.models.Class"), "parameters")
+    ef.compute(cparams)
+    params_raises = {e for g in cparams for e in ef.escapes(g) if e in ("AliasResolutionError", "CyclicAliasError")}
+    n_pp = 0
+    for f in fns:
+        for n in walk_no_nested(f.node):
+            if isinstance(n, ast.Attribute) and n.attr == "parameters" and isinstance(n.ctx, ast.Load) and unparse(n.value) == "docstring.parent":
+                n_pp += 1
+                got = enclosing_catch(n)
+                missing = set() if got & {"Exception", "BaseException", "GriffeError"} else params_raises - got
+                ctx.ob("R2", key(f, f"parent-parameters:{_branch_key(n)}"), not missing,
+                       "`docstring.parent.parameters` cannot raise an alias error here" if not missing else
+                       f"`docstring.parent.parameters` is only protected against {sorted(got)}: for a class whose `__init__` is an unresolvable import, "
+                       f"Class.parameters raises {sorted(missing)} out of the docstring parser", where(f, n))
+    ctx.expect_min("R2", n_pp, 6)
 
     # ------------------------------------------------------------------ R2i helpers that promise not to raise
     repo_exceptions = {c.name for c in prog.classes.values() if c.module.name == "_griffe.exceptions"}
